@@ -73,7 +73,7 @@ NEEDED = {
     "S-C05-6": "none for C05: RecursionError escaping the one-shot JSON deserializer on a deeply nested datagram is a foreign exception on malformed input, C06's subject; C06 catches it (C05's generators do not produce resource-exhausting inputs)",
     "S-C06-6": "NOT CAUGHT by any check: StringLineSerializer(debug=True) loses the remainder after an undecodable line; no harness configuration enables the serializers' debug option (recorded as a coverage gap in section 10)",
     "S-C08-7": "C12: a send lock left held by a returned call is now a verdict instead of a hung worker (close() of the harness runs aside with a bound; common join deadline); before that the check hung for 40 minutes (2 x watchdog) and ended inconclusive. The quick tier still needs more than 25 minutes on this change; C11's virtual lock does not check that the lock is released (gap recorded in section 10)",
-    "S-C16-7": "NOT CAUGHT by any check: CancelScope.__exit__ keeps the delayed re-cancel when a shielded body ends with an ordinary exception after the deadline; C13's generated programs have no statement that raises inside a shielded section (recorded as a coverage gap in section 10)",
+    "S-C16-7": "not caught when it was confirmed (CancelScope.__exit__ keeps the delayed re-cancel when a shielded body ends with an ordinary exception after the deadline; C13's generated programs have no statement that raises inside a shielded section). The C13 template shielded_failure_case was written for that shape and at once found a genuine defect of the unchanged tree in the same branch (leftover cancelling() count, repaired by 0e12a13); on the repaired tree the seed's patch no longer has its effect, so it is not listed as caught",
     "S-C20-7": "NOT CAUGHT by any check: ThreadsPortal.run_coroutine_soon() future.cancel() from a foreign thread uses call_soon() (no loop wake-up); no check cancels a portal future while the loop is idle (recorded as a coverage gap in section 10)",
     "S-C04-2": "C04 interrupted send then resume (C20 caught it before)",
 }
